@@ -24,6 +24,7 @@ RULE = (
     "every data value still at its physical depth, second identical application changes nothing, the "
     "state after two applications only depends on the last non-None request per aspect, input dataset "
     "unmodified.  Non-trivial: calls that flip sign and order together; attribute-absent coordinates."
+    ' Also: arguments given as tuple / generator / iterator / map / data arrays, numpy-array valued attributes on the coordinates.'
 )
 LEVEL_TEXT = ("every depth-coordinate variant of the stated product x all 9 option pairs x all 81 two-step histories, with "
               "physical-layer labels as oracle for data, coordinate, bounds, purity and idempotence")
